@@ -15,6 +15,8 @@ code as found, kept as the negative witness `f6_discharge_violates_contract`.
 import Macaroon.Lemmas.Bundle
 import Macaroon.Props.C04
 import Macaroon.Props.C19
+import Macaroon.Props.C03
+import Macaroon.Lemmas.Legit
 import Macaroon.Generated.Consts
 
 namespace Macaroon.Props.C13
@@ -265,6 +267,30 @@ theorem attenuate_verified_set (b : Bundle) (items : List (AddItem Bytes)) (hok 
       Concrete.encode (add c items).1 = (m', some bytes) ∧ s' = macString bytes ∧
       Tok.verified s' m' (cs ++ (add c items).1.cavs.drop c.cavs.length) ∈ (b.attenuate items).1.ts :=
   Lemmas.BundleL.attenuate_verified_set b items hok s m cs ht hp
+
+/-- **the verified set agrees with re-verification on what was added.**  After a successful
+attenuation the verified set of a verified token is `cs ++ added` with `added` = exactly the caveats
+`Add` appended, in that order (`attenuate_verified_set`) — not the caller's argument list, from which
+`Add` may have skipped duplicates at any position.  Consequently every first-party caveat that was
+appended is enforced the same way without and with re-verification: it is in the verified set, it is
+in the result of every accepted verification of the attenuated token (`verify_returns_kept`), and a
+request it prohibits is refused by `Validate` on the attenuated bundle exactly as it is after
+re-parsing and re-verifying the printed header. -/
+theorem appended_caveats_enforced_like_reverification (cs : CS) (c : M) (items : List (AddItem Bytes))
+    (x : Cav Bytes) (hx : x ∈ (add c items).1.cavs.drop c.cavs.length)
+    (hk : Lemmas.kept true x = true) (hna : x.isAttestation = false) :
+    x ∈ cs ++ (add c items).1.cavs.drop c.cavs.length ∧
+    (∀ key dms tr cs₂, Macaroon.verify key (add c items).1 dms tr = .ok cs₂ → x ∈ cs₂) ∧
+    (∀ r rs, r ∈ rs → prohibits x r ≠ [] →
+      Macaroon.validate (cs ++ (add c items).1.cavs.drop c.cavs.length) rs ≠ [] ∧
+      ∀ key dms tr cs₂, Macaroon.verify key (add c items).1 dms tr = .ok cs₂ → Macaroon.validate cs₂ rs ≠ []) := by
+  have h1 : x ∈ cs ++ (add c items).1.cavs.drop c.cavs.length := List.mem_append_right _ hx
+  have h2 : ∀ key dms tr cs₂, Macaroon.verify key (add c items).1 dms tr = .ok cs₂ → x ∈ cs₂ :=
+    fun key dms tr cs₂ hv => Lemmas.verify_returns_kept key _ dms tr cs₂ hv x (List.mem_of_mem_drop hx) hk
+  refine ⟨h1, h2, ?_⟩
+  intro r rs hr hp
+  exact ⟨C03.single_prohibition_denies _ rs x r h1 hr hna hp,
+    fun key dms tr cs₂ hv => C03.single_prohibition_denies cs₂ rs x r (h2 key dms tr cs₂ hv) hr hna hp⟩
 
 /-- what `Add` appends for one fresh third-party item (`NewCaveat3P`): the third-party caveat itself,
 with the VerifierKey sealed under the tail before it — unless a caveat with the same encoding was
@@ -527,6 +553,7 @@ end Macaroon.Props.C13
 #print axioms Macaroon.Props.C13.failed_attenuate_changes_nothing
 #print axioms Macaroon.Props.C13.attenuate_fails_if_one_token_fails
 #print axioms Macaroon.Props.C13.attenuate_verified_set
+#print axioms Macaroon.Props.C13.appended_caveats_enforced_like_reverification
 #print axioms Macaroon.Props.C13.add_single_third_party
 #print axioms Macaroon.Props.C13.third_party_caveat_clears_nothing
 #print axioms Macaroon.Props.C13.attenuated_3p_blocks_until_reverified
